@@ -45,30 +45,30 @@ Qed.
 Definition hold (p : pc) : bool :=
   match p with WAcq | WFailSeg | WYield | WRetrySeg | WSlotSeg => true | _ => false end.
 
-(* the throttle's minimum over the readers *)
-Lemma fold_min (thr : nat -> tstate) (l : list nat) a :
-  0 <= a -> (forall v, In v l -> 0 <= t_cnt (thr v)) ->
-  let r := fold_left (fun lo u => if (lo <? 0) || (t_cnt (thr u) <? lo) then t_cnt (thr u) else lo) l a in
-  0 <= r <= a /\ forall u, In u l -> r <= t_cnt (thr u).
+(* the throttle's minimum over the readers that still have reads to do: negative iff there is none,
+   otherwise a lower bound of every active reader's next index *)
+Lemma fold_min_next (thr : nat -> tstate) (l : list nat) a :
+  (forall v, In v l -> 0 <= rnext (thr v)) ->
+  let r := fold_left (fun lo u => if active (thr u) && ((lo <? 0) || (rnext (thr u) <? lo)) then rnext (thr u) else lo) l a in
+  (0 <= a -> 0 <= r <= a) /\
+  forall u, In u l -> active (thr u) = true -> 0 <= r <= rnext (thr u).
 Proof.
-  revert a. induction l as [|v l IH]; intros a Ha Hl; simpl.
+  revert a. induction l as [|v l IH]; intros a Hl; simpl.
   - split; [lia|]. intros u [].
-  - assert (Hv : 0 <= t_cnt (thr v)) by (apply Hl; left; reflexivity).
-    set (a' := if (a <? 0) || (t_cnt (thr v) <? a) then t_cnt (thr v) else a).
-    assert (Ha' : 0 <= a' <= a /\ a' <= t_cnt (thr v)).
-    { unfold a'. destruct (Z.ltb_spec a 0); simpl; [lia|]. destruct (Z.ltb_spec (t_cnt (thr v)) a); lia. }
-    destruct (IH a' ltac:(lia) ltac:(intros w Hw; apply Hl; right; exact Hw)) as [R1 R2].
-    split; [lia|]. intros u [E|E]; [subst; lia|apply R2; exact E].
+  - assert (Hv : 0 <= rnext (thr v)) by (apply Hl; left; reflexivity).
+    set (a' := if active (thr v) && ((a <? 0) || (rnext (thr v) <? a)) then rnext (thr v) else a).
+    assert (Ha' : (0 <= a -> 0 <= a' <= a) /\ (active (thr v) = true -> 0 <= a' <= rnext (thr v))).
+    { unfold a'. destruct (active (thr v)); simpl; [|split; [lia|discriminate]].
+      destruct (Z.ltb_spec a 0); simpl; [lia|]. destruct (Z.ltb_spec (rnext (thr v)) a); lia. }
+    destruct (IH a' ltac:(intros w Hw; apply Hl; right; exact Hw)) as [R1 R2]. destruct Ha' as [A1 A2].
+    split; [intros Ha; specialize (A1 Ha); specialize (R1 ltac:(lia)); lia|].
+    intros u [E|E] Hact; [subst u; specialize (A2 Hact); specialize (R1 ltac:(lia)); lia|apply R2; assumption].
 Qed.
 
-Lemma min_cnt_le (thr : nat -> tstate) (l : list nat) u : (forall v, In v l -> 0 <= t_cnt (thr v)) -> In u l -> min_cnt thr l <= t_cnt (thr u).
-Proof.
-  intros Hl Hu. unfold min_cnt. destruct l as [|v l]; [destruct Hu|]. simpl.
-  assert (Hv : 0 <= t_cnt (thr v)) by (apply Hl; left; reflexivity).
-  destruct (fold_min thr l (t_cnt (thr v)) Hv ltac:(intros w Hw; apply Hl; right; exact Hw)) as [R1 R2].
-  set (r := fold_left _ l (t_cnt (thr v))) in *.
-  destruct (Z.ltb_spec r 0); [lia|]. destruct Hu as [E|E]; [subst; lia|apply R2; exact E].
-Qed.
+Lemma min_next_le (thr : nat -> tstate) (l : list nat) u :
+  (forall v, In v l -> 0 <= rnext (thr v)) -> In u l -> active (thr u) = true ->
+  0 <= min_next thr l <= rnext (thr u).
+Proof. intros Hl Hu Ha. unfold min_next. apply (fold_min_next thr l (-1) Hl); assumption. Qed.
 
 Lemma readers_in c u : In u (readers c) -> is_reader c u = true.
 Proof.
@@ -83,8 +83,9 @@ Record TH (c : cfg) (s : sys) : Prop := {
   th_lap : s_lapped s = false;
   th_hold : s_wbeg s + nc hold (s_thr s) (nthr c) = s_begun s;
   th_cnt : forall u, 0 <= t_cnt (s_thr s u);
-  th_rd : c_rm c <> ROnce -> forall u, is_reader c u = true ->
-          s_begun s < c_pre c + t_cnt (s_thr s u) + cap c;
+  th_start : forall u, t_start (s_thr s u) = rd_start c u;
+  th_rd : c_rm c <> ROnce -> forall u, is_reader c u = true -> t_rem (s_thr s u) <> O ->
+          s_begun s < t_start (s_thr s u) + t_cnt (s_thr s u) + cap c;
   th_once : c_rm c = ROnce ->
             s_deliv s + nc pending (s_thr s) (nthr c) = s_nt s /\ s_begun s < s_deliv s + cap c;
 }.
@@ -105,25 +106,28 @@ Proof.
   - reflexivity.
   - rewrite nc_init by exact Hh. lia.
   - intros u. lia.
-  - intros _ u _. lia.
+  - intros u. reflexivity.
+  - intros _ u _ _. pose proof (rd_start_range c u). lia.
   - intros _. rewrite nc_init by exact Hp. lia.
 Qed.
 
 (* what TH reads from a thread *)
 Definition tsame (x x' : tstate) : Prop :=
-  hold (t_pc x') = hold (t_pc x) /\ pending (t_pc x') = pending (t_pc x) /\ t_cnt x' = t_cnt x.
+  hold (t_pc x') = hold (t_pc x) /\ pending (t_pc x') = pending (t_pc x) /\ t_cnt x' = t_cnt x /\
+  t_start x' = t_start x /\ (t_rem x' <> O -> t_rem x <> O).
 
 Lemma th_same c s s' :
   (forall u, tsame (s_thr s u) (s_thr s' u)) ->
   s_lapped s' = s_lapped s -> s_wbeg s' = s_wbeg s -> s_begun s' = s_begun s ->
   s_deliv s' = s_deliv s -> s_nt s' = s_nt s -> TH c s -> TH c s'.
 Proof.
-  intros Hs E1 E2 E3 E4 E5 [H1 H2 H3 H4 H5].
+  intros Hs E1 E2 E3 E4 E5 [H1 H2 H3 H3s H4 H5].
   constructor; rewrite ?E1, ?E2, ?E3, ?E4, ?E5.
   - exact H1.
   - rewrite (nc_ext hold (s_thr s) (s_thr s')); [exact H2|]. intros u. apply (Hs u).
-  - intros u. destruct (Hs u) as (_ & _ & C). rewrite C. apply H3.
-  - intros Hm u Hu. destruct (Hs u) as (_ & _ & C). rewrite C. apply H4; assumption.
+  - intros u. destruct (Hs u) as (_ & _ & C & _). rewrite C. apply H3.
+  - intros u. destruct (Hs u) as (_ & _ & _ & C & _). rewrite C. apply H3s.
+  - intros Hm u Hu Hrem. destruct (Hs u) as (_ & _ & C & D & F). rewrite C, D. apply H4; auto.
   - intros Hm. rewrite (nc_ext pending (s_thr s) (s_thr s')); [apply H5; exact Hm|].
     intros u. apply (Hs u).
 Qed.
@@ -133,7 +137,7 @@ Proof. destruct p; simpl; try discriminate; reflexivity. Qed.
 Lemma pending_resume' p : is_blocked p = true -> pending (resume p) = pending p.
 Proof. destruct p; simpl; try discriminate; reflexivity. Qed.
 Lemma tsame_refl x : tsame x x.
-Proof. repeat split; reflexivity. Qed.
+Proof. repeat split; try reflexivity. auto. Qed.
 
 Section Step.
 Variable P : params.
@@ -149,16 +153,17 @@ Ltac tsame_tac Epc :=
   | |- context [if is_blocked ?p then _ else _] => destruct (is_blocked p) eqn:?
   end;
   try apply tsame_refl; unfold tsame; simpl; rewrite ?Epc; simpl;
-  repeat split; try reflexivity;
+  repeat split; try reflexivity; auto;
   try (apply hold_resume; assumption); try (apply pending_resume'; assumption).
 
 Lemma nolap_from_th s : s_cfg s = c -> TH c s -> s_wbeg s + 1 <= s_begun s -> nolap_ok s (s_wbeg s + 1) = true.
 Proof.
-  intros Hcfg [H1 H2 H3 H4 H5] Hle. unfold nolap_ok. rewrite Hcfg.
+  intros Hcfg [H1 H2 H3 H3s H4 H5] Hle. unfold nolap_ok. rewrite Hcfg.
   assert (Hrd : c_rm c <> ROnce ->
-            forallb (fun u => s_wbeg s + 1 <? c_pre c + t_cnt (s_thr s u) + cap c) (readers c) = true).
-  { intros Hm. apply forallb_forall. intros u Hu. apply Z.ltb_lt.
-    pose proof (H4 Hm u (readers_in c u Hu)). lia. }
+            forallb (fun u => negb (active (s_thr s u)) || (s_wbeg s + 1 <? rnext (s_thr s u) + cap c)) (readers c) = true).
+  { intros Hm. apply forallb_forall. intros u Hu. destruct (active (s_thr s u)) eqn:Ea; [simpl|reflexivity].
+    apply Z.ltb_lt. apply active_rem in Ea.
+    pose proof (H4 Hm u (readers_in c u Hu) Ea). unfold rnext. lia. }
   assert (Hon : c_rm c = ROnce -> (s_wbeg s + 1 <? s_nt s + cap c) = true).
   { intros Hm. apply Z.ltb_lt. destruct (H5 Hm) as [A B]. pose proof (nc_nonneg pending (s_thr s) (nthr c)). lia. }
   destruct (c_rm c); [apply Hrd; discriminate|apply Hrd; discriminate|apply Hrd; discriminate|apply Hon; reflexivity].
@@ -193,37 +198,47 @@ Proof.
     (eapply th_same; [tsame_tac Epc | reflexivity | reflexivity | reflexivity | reflexivity | reflexivity | exact HT]) ].
   - (* WStart: the throttle lets the writer take a ticket *)
     specialize (Hrange eq_refl).
+    assert (Hwr : is_reader c t = false).
+    { apply is_reader_writer. apply (a_role _ _ HA t). rewrite Epc. reflexivity. }
     destruct (t_rem (s_thr s t)) as [|rem'].
     { inv_some Hs. eapply th_same; [tsame_tac Epc | reflexivity | reflexivity | reflexivity | reflexivity | reflexivity | exact HT]. }
     rewrite Hthr in Hs. simpl in Hs.
     destruct (can_begin s) eqn:Ecb; simpl in Hs.
     2:{ inv_some Hs. eapply th_same; [tsame_tac Epc | reflexivity | reflexivity | reflexivity | reflexivity | reflexivity | exact HT]. }
-    assert (Hcb : (c_rm c <> ROnce -> forall u, is_reader c u = true ->
-                     s_begun s + 1 < c_pre c + t_cnt (s_thr s u) + cap c) /\
+    assert (Hcb : (c_rm c <> ROnce -> forall u, is_reader c u = true -> t_rem (s_thr s u) <> O ->
+                     s_begun s + 1 < t_start (s_thr s u) + t_cnt (s_thr s u) + cap c) /\
                   (c_rm c = ROnce -> s_begun s + 1 < s_deliv s + cap c)).
-    { unfold can_begin in Ecb. rewrite Hcfg in Ecb. apply Z.ltb_lt in Ecb. split.
-      - intros Hm u Hu.
-        assert (Hmin : min_cnt (s_thr s) (readers c) <= t_cnt (s_thr s u)).
-        { apply min_cnt_le; [intros v _; apply (th_cnt _ _ HT)|apply in_readers; exact Hu]. }
-        destruct (c_rm c); try congruence; lia.
-      - intros Hm. rewrite Hm in Ecb. exact Ecb. }
-    destruct Hcb as [Hc1 Hc2]. destruct HT as [H1 H2 H3 H4 H5].
+    { unfold can_begin in Ecb. rewrite Hcfg in Ecb. split.
+      - intros Hm u Hu Hrem.
+        assert (Hmin : 0 <= min_next (s_thr s) (readers c) <= rnext (s_thr s u)).
+        { apply min_next_le; [|apply in_readers; exact Hu|apply active_rem; exact Hrem].
+          intros v Hv. unfold rnext. rewrite (th_start _ _ HT v).
+          pose proof (proj2 (wf_idx _ Hwf v (readers_in c v Hv)) Hm). pose proof (th_cnt _ _ HT v). lia. }
+        unfold rnext in Hmin.
+        assert (Ecb' : ((min_next (s_thr s) (readers c) <? 0) || (s_begun s + 1 <? min_next (s_thr s) (readers c) + cap c)) = true)
+          by (destruct (c_rm c); try congruence; exact Ecb).
+        apply orb_prop in Ecb' as [Ecb'|Ecb']; [apply Z.ltb_lt in Ecb'; lia|apply Z.ltb_lt in Ecb'; lia].
+      - intros Hm. rewrite Hm in Ecb. apply Z.ltb_lt in Ecb. exact Ecb. }
+    destruct Hcb as [Hc1 Hc2]. destruct HT as [H1 H2 H3 H3s H4 H5].
     destruct (c_wm c) eqn:Ewm.
     + (* locked: ticket only *)
       inv_some Hs. constructor; simpl.
       * exact H1.
       * rewrite nc_upd by exact Hrange. simpl. rewrite Epc. simpl. lia.
       * intros u. unfold upd. destruct (Nat.eqb_spec u t); [subst; simpl|]; apply H3.
-      * intros Hm u Hu. pose proof (Hc1 Hm u Hu). unfold upd. destruct (Nat.eqb_spec u t); [subst; simpl|]; lia.
+      * intros u. unfold upd. destruct (Nat.eqb_spec u t); [subst; simpl|]; apply H3s.
+      * intros Hm u Hu. unfold upd. destruct (Nat.eqb_spec u t); [subst; congruence|].
+        intros Hrem. pose proof (Hc1 Hm u Hu Hrem). lia.
       * intros Hm. destruct (H5 Hm) as [A B]. rewrite nc_upd by exact Hrange. simpl. rewrite Epc. simpl.
         specialize (Hc2 Hm). lia.
     + (* single writer: ticket and slot store in one segment *)
       assert (Hnl : nolap_ok (set_ticket s) (s_wbeg s + 1) = true).
       { unfold nolap_ok. simpl. rewrite Hcfg. pose proof (nc_nonneg hold (s_thr s) (nthr c)) as Hn0.
         assert (Hrd : c_rm c <> ROnce ->
-                  forallb (fun u => s_wbeg s + 1 <? c_pre c + t_cnt (s_thr s u) + cap c) (readers c) = true).
-        { intros Hm. apply forallb_forall. intros u Hu. apply Z.ltb_lt.
-          pose proof (Hc1 Hm u (readers_in c u Hu)). lia. }
+                  forallb (fun u => negb (active (s_thr s u)) || (s_wbeg s + 1 <? rnext (s_thr s u) + cap c)) (readers c) = true).
+        { intros Hm. apply forallb_forall. intros u Hu. destruct (active (s_thr s u)) eqn:Ea; [simpl|reflexivity].
+          apply Z.ltb_lt. apply active_rem in Ea.
+          pose proof (Hc1 Hm u (readers_in c u Hu) Ea). unfold rnext. lia. }
         assert (Hon : c_rm c = ROnce -> (s_wbeg s + 1 <? s_nt s + cap c) = true).
         { intros Hm. apply Z.ltb_lt. destruct (H5 Hm) as [A B]. specialize (Hc2 Hm).
           pose proof (nc_nonneg pending (s_thr s) (nthr c)). lia. }
@@ -232,7 +247,9 @@ Proof.
       * simpl in Hnl. rewrite Hnl, H1. reflexivity.
       * rewrite nc_upd by exact Hrange. simpl. rewrite Epc. simpl. lia.
       * intros u. unfold upd. destruct (Nat.eqb_spec u t); [subst; simpl|]; apply H3.
-      * intros Hm u Hu. pose proof (Hc1 Hm u Hu). unfold upd. destruct (Nat.eqb_spec u t); [subst; simpl|]; lia.
+      * intros u. unfold upd. destruct (Nat.eqb_spec u t); [subst; simpl|]; apply H3s.
+      * intros Hm u Hu. unfold upd. destruct (Nat.eqb_spec u t); [subst; congruence|].
+        intros Hrem. pose proof (Hc1 Hm u Hu Hrem). lia.
       * intros Hm. destruct (H5 Hm) as [A B]. rewrite nc_upd by exact Hrange. simpl. rewrite Epc. simpl.
         specialize (Hc2 Hm). lia.
   - (* WSlotSeg: the slot store of a ticket holder *)
@@ -240,40 +257,48 @@ Proof.
     assert (Hge : 1 <= nc hold (s_thr s) (nthr c)) by (apply (nc_ge1 hold _ t); [exact Hrange|rewrite Epc; reflexivity]).
     assert (Hnl : nolap_ok s (s_wbeg s + 1) = true).
     { apply nolap_from_th; [exact Hcfg|exact HT|]. pose proof (th_hold _ _ HT). lia. }
-    destruct HT as [H1 H2 H3 H4 H5]. inv_some Hs. constructor; simpl.
+    destruct HT as [H1 H2 H3 H3s H4 H5]. inv_some Hs. constructor; simpl.
     + rewrite Hnl, H1. reflexivity.
     + rewrite nc_upd by exact Hrange. simpl. rewrite Epc. simpl. lia.
     + intros u. unfold upd. destruct (Nat.eqb_spec u t); [subst; simpl|]; apply H3.
+    + intros u. unfold upd. destruct (Nat.eqb_spec u t); [subst; simpl|]; apply H3s.
     + intros Hm u Hu. unfold upd. destruct (Nat.eqb_spec u t); [subst; simpl|]; apply H4; assumption.
     + intros Hm. rewrite nc_upd by exact Hrange. simpl. rewrite Epc. simpl. destruct (H5 Hm). lia.
   - (* RRead *)
     specialize (Hrange eq_refl).
     assert (Hm0 : c_rm c <> ROnce) by (apply (a_rm_r _ _ HA t); rewrite Epc; reflexivity).
-    destruct HT as [H1 H2 H3 H4 H5]. inv_some Hs. constructor; simpl.
+    destruct HT as [H1 H2 H3 H3s H4 H5]. inv_some Hs. constructor; simpl.
     + exact H1.
     + rewrite nc_upd by exact Hrange. simpl. rewrite Epc. simpl.
       destruct (pred (t_rem (s_thr s t))); simpl; lia.
     + intros u. pose proof (H3 u). unfold upd. destruct (Nat.eqb_spec u t); [subst; simpl; lia|assumption].
-    + intros Hm u Hu. pose proof (H4 Hm u Hu). unfold upd. destruct (Nat.eqb_spec u t); [subst; simpl; lia|assumption].
+    + intros u. unfold upd. destruct (Nat.eqb_spec u t); [subst; simpl|]; apply H3s.
+    + intros Hm u Hu. pose proof (H4 Hm u Hu) as H4u. unfold upd. destruct (Nat.eqb_spec u t); [subst; simpl|assumption].
+      intros Hrem. assert (Hrem0 : t_rem (s_thr s t) <> O) by (intros E0; rewrite E0 in Hrem; simpl in Hrem; congruence).
+      specialize (H4u Hrem0). lia.
     + intros Hm. contradiction.
   - (* KCheck *)
     specialize (Hrange eq_refl).
     destruct (s_rc s =? t_pos (s_thr s t)).
     + inv_some Hs. eapply th_same; [tsame_tac Epc | reflexivity | reflexivity | reflexivity | reflexivity | reflexivity | exact HT].
-    + destruct HT as [H1 H2 H3 H4 H5]. inv_some Hs. constructor; simpl.
+    + destruct HT as [H1 H2 H3 H3s H4 H5]. inv_some Hs. constructor; simpl.
       * exact H1.
       * rewrite nc_upd by exact Hrange. simpl. rewrite Epc. simpl. lia.
       * intros u. unfold upd. destruct (Nat.eqb_spec u t); [subst; simpl|]; apply H3.
+      * intros u. unfold upd. destruct (Nat.eqb_spec u t); [subst; simpl|]; apply H3s.
       * intros Hm u Hu. unfold upd. destruct (Nat.eqb_spec u t); [subst; simpl|]; apply H4; assumption.
       * intros Hm. rewrite nc_upd by exact Hrange. simpl. rewrite Epc. simpl. destruct (H5 Hm). lia.
   - (* KDoneSeg *)
     specialize (Hrange eq_refl).
-    destruct HT as [H1 H2 H3 H4 H5]. inv_some Hs. constructor; simpl.
+    destruct HT as [H1 H2 H3 H3s H4 H5]. inv_some Hs. constructor; simpl.
     + exact H1.
     + rewrite nc_upd by exact Hrange. simpl. rewrite Epc. simpl.
       destruct (pred (t_rem (s_thr s t))); simpl; lia.
     + intros u. pose proof (H3 u). unfold upd. destruct (Nat.eqb_spec u t); [subst; simpl; lia|assumption].
-    + intros Hm u Hu. pose proof (H4 Hm u Hu). unfold upd. destruct (Nat.eqb_spec u t); [subst; simpl; lia|assumption].
+    + intros u. unfold upd. destruct (Nat.eqb_spec u t); [subst; simpl|]; apply H3s.
+    + intros Hm u Hu. pose proof (H4 Hm u Hu) as H4u. unfold upd. destruct (Nat.eqb_spec u t); [subst; simpl|assumption].
+      intros Hrem. assert (Hrem0 : t_rem (s_thr s t) <> O) by (intros E0; rewrite E0 in Hrem; simpl in Hrem; congruence).
+      specialize (H4u Hrem0). lia.
     + intros Hm. rewrite nc_upd by exact Hrange. simpl. rewrite Epc. simpl. destruct (H5 Hm).
       destruct (pred (t_rem (s_thr s t))); simpl; lia.
 Qed.
